@@ -19,7 +19,7 @@ def _axioms():
     note("struct", "pack('>I', n) is the 4-byte big-endian encoding of 0 <= n < 2**32 (struct.error otherwise); unpack is its inverse; '<I' is a different encoding")
     n = z3.Int("_sn")
     for name, (p, u) in (("be", FORMATS[">I"]), ("le", FORMATS["<I"])):
-        solver.add_axiom(f"struct-{name}-inverse", z3.ForAll([n], z3.Implies(z3.And(n >= 0, n < 2**32), u(p(n)) == n)))
+        solver.add_axiom(f"struct-{name}-inverse", z3.ForAll([n], z3.Implies(z3.And(n >= 0, n < 2**32), u(p(n)) == n)), trigger=([n], p(n)))
     solver.add_axiom("struct-be-le-differ", be32(1) != le32(1))
 
 
